@@ -13,8 +13,11 @@ package ir
 //   - AddEdge/Enqueue/Built/MarkDone of one task are issued by the one goroutine that owns the builder.
 
 import (
+	"go/types"
+	"runtime"
 	"sync"
 	"sync/atomic"
+	"time"
 )
 
 // VerifC18Kind enumerates the recorded events.
@@ -90,6 +93,35 @@ func VerifFunctionNumbers() map[*Function]int {
 	return m
 }
 
+// VerifInstance returns the generic origin and the receiver/function type arguments of an instance
+// (nil origin: fn is not an instance).
+func VerifInstance(fn *Function) (origin *Function, rtargs, targs []types.Type) {
+	return fn.topLevelOrigin, fn.recvtypeargs, fn.typeargs
+}
+
+// VerifC18Perturb makes every hook call yield the processor (sometimes sleep a few microseconds) according
+// to a pseudo-random sequence derived from seed, to widen the set of schedules a run explores. 0 switches it off.
+func VerifC18Perturb(seed uint64) { verifC18Seed.Store(seed); verifC18Ctr.Store(0) }
+
+var verifC18Seed, verifC18Ctr atomic.Uint64
+
+func verifPerturb() {
+	seed := verifC18Seed.Load()
+	if seed == 0 {
+		return
+	}
+	z := seed + verifC18Ctr.Add(1)*0x9E3779B97F4A7C15
+	z = (z ^ (z >> 30)) * 0xBF58476D1CE4E5B9
+	z = (z ^ (z >> 27)) * 0x94D049BB133111EB
+	z ^= z >> 31
+	switch {
+	case z%16 == 0:
+		time.Sleep(time.Duration(1+z>>60) * 20 * time.Microsecond)
+	case z%4 == 1:
+		runtime.Gosched()
+	}
+}
+
 // VerifBuilt reports whether fn's body is complete (nil build func marks a finished function).
 func VerifBuilt(fn *Function) bool { return fn.build == nil }
 
@@ -120,6 +152,7 @@ func verifFnID(f *Function) int {
 }
 
 func verifTaskEdge(x, y *task, added bool) {
+	verifPerturb()
 	if !verifC18On.Load() {
 		return
 	}
@@ -136,6 +169,7 @@ func verifTaskEdge(x, y *task, added bool) {
 }
 
 func verifTaskMarkDone(x *task) {
+	verifPerturb()
 	if !verifC18On.Load() {
 		return
 	}
@@ -151,6 +185,7 @@ func verifTaskMarkDone(x *task) {
 type verifWaiter int
 
 func verifWaitStart(x *task) verifWaiter {
+	verifPerturb()
 	if x == nil || !verifC18On.Load() {
 		return 0 // waiting on the nil task is not recorded
 	}
@@ -166,6 +201,7 @@ func verifWaitStart(x *task) verifWaiter {
 }
 
 func verifWaitEvent(w verifWaiter, k VerifC18Kind, x *task, read bool) {
+	verifPerturb()
 	if w == 0 || !verifC18On.Load() {
 		return
 	}
@@ -189,6 +225,7 @@ func verifWaitObserve(w verifWaiter, u *task) { verifWaitEvent(w, VerifEvWaitObs
 func verifWaitClosed(w verifWaiter, x *task)  { verifWaitEvent(w, VerifEvWaitClosed, x, false) }
 
 func verifEnqueue(fn *Function) {
+	verifPerturb()
 	if !verifC18On.Load() {
 		return
 	}
@@ -201,6 +238,7 @@ func verifEnqueue(fn *Function) {
 }
 
 func verifFnBuilt(fn *Function) {
+	verifPerturb()
 	if !verifC18On.Load() {
 		return
 	}
@@ -213,6 +251,7 @@ func verifFnBuilt(fn *Function) {
 }
 
 func verifPkgBuild(p *Package) {
+	verifPerturb()
 	if !verifC18On.Load() {
 		return
 	}
